@@ -11,6 +11,8 @@ def owners(tag, kind):
         out.add("C14")
     if kind == "XR" and base in ("C02", "C03", "C04"):
         out.add("C15")
+    if kind == "CP" and tag in ("C02:wf_rejected", "C05:marshalsize", "C05:marshalsize_vs_output", "C10:dest"):
+        out.add("C11")
     return out
 
 def n(tier, quick, thorough):
@@ -48,3 +50,9 @@ prop("C07", lambda t, s: [("mc", "Mc", n(t, "McDispatch", "McDispatchAll")), ("m
      exhaustive_note="McDispatch enumerates 28 packet types (thorough: all 256) x 32 FMT values x 4 bodies; McForeign gives every star-domain encoding to all 16 decoders")
 prop("C08", lambda t, s: [("mc", "Mc", "McLimits"), ("drive", "limits", n(t, 1000, 60000))],
      exhaustive_note="McLimits enumerates the values at, just below and just above every wire limit named by the property (LimitDom of spec/Domain.tla)")
+
+prop("C11", lambda t, s: [("mc", "Mc", n(t, "McCompound", "McCompound4")), ("drive", "cprand", n(t, 600, 30000))],
+     exhaustive_note="McCompound enumerates every sequence of up to 3 (thorough: 4) members over the 13 representative kinds of CpKinds (spec/Domain.tla): SR, RR, six SDES shapes, BYE, feedback, APP, XR, Raw")
+
+prop("C12", lambda t, s: [("mc", "NackAlg", n(t, "McNack", "McNackThorough")), ("drive", "nackrand", n(t, 1500, 60000))],
+     exhaustive_note="McNack enumerates every list of up to 3 sequence numbers over 17 (thorough: 26) boundary values, Range with every stop position on every pair built from lists of up to 2, and the complete 2^16 bitmap table at 2 (thorough: 6) packet IDs")
